@@ -284,8 +284,24 @@ func c24One(id int, cfg c24Cfg, seed int64) (*c24Run, error) {
 		return nil, err
 	}
 	if !cfg.pool {
-		// idle handles are eventually closed: wait well beyond the grace period
+		// idle handles are eventually closed: wait well beyond the grace period - and, because the timers
+		// run in real time, keep polling (up to 5 s) while a descriptor is still open, so that a loaded
+		// machine delays the observation instead of deciding the verdict
 		time.Sleep(40 * grace)
+		for waited := time.Duration(0); waited < 5*time.Second; waited += 5 * time.Millisecond {
+			open := 0
+			mu.Lock()
+			for _, fd := range fds {
+				if !fd.closed.Load() {
+					open++
+				}
+			}
+			mu.Unlock()
+			if open == 0 {
+				break
+			}
+			time.Sleep(5 * time.Millisecond)
+		}
 		mu.Lock()
 		record(c24Ev{Ev: "Quiesce", T: "t1", F: run.Files[0]})
 		mu.Unlock()
